@@ -62,11 +62,15 @@ func checkStep(c Cfg, pre *Model, op Op, o *Obs) (post *Model, fails []string) {
 				return nil, fails
 			}
 			got := o.Res[i][j]
-			if sym != 0 && got != uint(sym) {
-				fail("key of an argument record was changed: t%d now has key %d", sym, got)
+			key := pre.keyOf(sym)
+			// (what a Delete leaves in the values it was given is not part of the
+			// property: a pointer relation field may alias a value passed earlier
+			// and is zeroed in place)
+			if key != 0 && got != key && op.Code != "Delete" {
+				fail("key of an argument record was changed: %s had key %d and now has key %d", symName(sym), key, got)
 				return nil, fails
 			}
-			if sym == 0 && op.Code != "Delete" {
+			if key == 0 && op.Code != "Delete" {
 				if got == 0 {
 					fail("new record received no primary key: the argument value still has key 0 after the call")
 					return nil, fails
@@ -84,6 +88,9 @@ func checkStep(c Cfg, pre *Model, op Op, o *Obs) (post *Model, fails []string) {
 			fail("internal: ambiguous call reached the oracle: %s", amb)
 			return nil, fails
 		}
+	}
+	if o.KeptAfter != nil {
+		post.Kept = o.KeptAfter
 	}
 	// 1. stored links of the relation, for all parents (operated and bystander)
 	want := post.links()
